@@ -608,6 +608,36 @@ def generator_rules(ctx, pid, gen_rel, fun_rel, codec):
                       'the loop counter of `for (i = 0; i < length; i++)` and the cast of the decoded length must use a type that holds checker.maximum; found %s -- with a maximum of '
                       '256 the counter wraps and the generated loop never terminates' % [ast.unparse(c) for c in calls], stmt='loop counter type')
 
+    # a scratch variable that receives a value read with a width decided at run time (decoder_read_uint(decoder_p, <n>): the OER quantity / length) holds whatever
+    # that many octets can carry until it is compared with checker.maximum: declared with a fixed narrow type it truncates first and compares afterwards
+    for name, f8 in sorted(g.methods.items()):
+        allocs = {}
+        for a_ in walk_no_nested(f8):
+            if isinstance(a_, ast.Assign) and isinstance(a_.targets[0], ast.Name) and isinstance(a_.value, ast.Call) and isinstance(a_.value.func, ast.Attribute) \
+                    and a_.value.func.attr.startswith('add_unique_') and a_.value.args:
+                allocs[a_.targets[0].id] = a_.value.args[0]
+        for c_ in walk_no_nested(f8):
+            if not (isinstance(c_, ast.Call) and isinstance(c_.func, ast.Attribute) and c_.func.attr == 'format' and isinstance(c_.func.value, ast.Constant)
+                    and isinstance(c_.func.value.value, str)):
+                continue
+            t_ = c_.func.value.value
+            m_ = re.match(r'^\{\w*\} = (\([^)]*\))?decoder_read_uint\(', t_)
+            if not m_ or not c_.args:
+                continue
+            v_ = c_.args[0]
+            if not (isinstance(v_, ast.Name) and v_.id in allocs):
+                continue
+            decl = allocs[v_.id]
+            narrow = isinstance(decl, ast.Constant) and isinstance(decl.value, str) and re.match(r'^u?int(8|16)_t ', decl.value)
+            bounded = any(isinstance(an_, ast.If) and 'maximum' in ast.unparse(an_.test) and re.search(r'<\s*(256|65536)|<=\s*(255|65535)', ast.unparse(an_.test)) for an_ in flow.ancestors(c_))
+            ok8 = not narrow or bounded
+            ctx.instance(R8, '%s: `%s` receives decoder_read_uint(..), declared %s' % (Model.qual(f8), v_.id, ast.unparse(decl)[:40]), 'ok' if ok8 else 'VIOLATION', node=c_, file=gen_rel)
+            if not ok8:
+                ctx.violation(R8, gen_rel, c_, Model.qual(f8),
+                              'the generated variable `%s` is declared `%s` and receives decoder_read_uint(decoder_p, <number of octets from the wire>) before the comparison with '
+                              'checker.maximum: a quantity of 256 or more is truncated first, so the bound check and the element count use the value modulo 256 (270 elements decode as 14)'
+                              % (v_.id, decl.value.strip()), stmt='narrow variable receives a run-time-width read')
+
     # ---- R11 scratch ownership: a generated local variable is allocated (add_unique_*variable) by the invocation that uses it.  The lifetimes of the scratch
     #      variables of nested types overlap in the generated function (an inner SEQUENCE is emitted between the outer one's write and read of its buffer), so a
     #      name that is kept on the generator object and handed out again is shared by invocations that are both live.
@@ -653,6 +683,65 @@ def generator_rules(ctx, pid, gen_rel, fun_rel, codec):
                                   stmt=norm_stmt(st))
     if n11 < 5:
         raise AnalysisError('%s examined only %d allocations of generated variables' % (R11, n11))
+
+    # ---- R12 re-entrancy: the format_*_inner methods call each other recursively (an inline SEQUENCE inside a SEQUENCE is formatted by a nested invocation of the same
+    #      method).  What one invocation records about *its* members - keyed by the member name, which is unique only within one type - lives in a local; a map kept on the
+    #      generator object is shared with the nested invocation, which overwrites the entry of an equally named member of the enclosing type.
+    R12 = pid + '.R12'
+    ctx.rule(R12, 're-entrant generator methods keep what they record per member (maps keyed by a member / type name) in locals, not on the generator object')
+    meths = {}
+    for k_ in (g, base):
+        for mn_, fn in k_.methods.items():
+            meths.setdefault(mn_, fn)
+    calls_of = {mn_: {c_.func.attr for c_ in walk_no_nested(fn) if isinstance(c_, ast.Call) and isinstance(c_.func, ast.Attribute) and isinstance(c_.func.value, ast.Name)
+                      and c_.func.value.id == 'self' and c_.func.attr in meths} for mn_, fn in meths.items()}
+
+    def reaches(a_, b_, seen=None):
+        seen = seen or set()
+        for c_ in calls_of.get(a_, ()):
+            if c_ == b_:
+                return True
+            if c_ not in seen:
+                seen.add(c_)
+                if reaches(c_, b_, seen):
+                    return True
+        return False
+    reentrant = {mn_ for mn_ in meths if reaches(mn_, mn_)}
+    n12 = 0
+    bad12 = []
+    for mn_ in sorted(meths):
+        fn = meths[mn_]
+        # the method is re-entrant, or runs inside a re-entrant one
+        if not (mn_ in reentrant or any(reaches(r_, mn_) for r_ in reentrant)):
+            continue
+        for n_ in walk_no_nested(fn):
+            tgt = None
+            if isinstance(n_, ast.Assign):
+                for t_ in n_.targets:
+                    if isinstance(t_, ast.Subscript) and isinstance(t_.value, ast.Attribute) and isinstance(t_.value.value, ast.Name) and t_.value.value.id == 'self':
+                        tgt = t_
+            if tgt is None:
+                continue
+            n12 += 1
+            by_name = any(isinstance(x_, ast.Attribute) and x_.attr in ('name', 'type_name') for x_ in ast.walk(tgt.slice))
+            attr_ = tgt.value.attr
+            read_back = any(isinstance(x_, (ast.Subscript, ast.Call, ast.Compare)) and any(isinstance(y_, ast.Attribute) and y_.attr == attr_ and isinstance(y_.ctx, ast.Load)
+                                                                                           and isinstance(y_.value, ast.Name) and y_.value.id == 'self' for y_ in ast.walk(x_))
+                            and not (isinstance(x_, ast.Subscript) and x_ is tgt)
+                            for m2 in meths.values() for x_ in walk_no_nested(m2))
+            verdict = 'VIOLATION' if (by_name and read_back) else 'ok'
+            ctx.instance(R12, '%s: self.%s[%s] = ...' % (Model.qual(fn), attr_, ast.unparse(tgt.slice)[:40]), verdict if verdict == 'VIOLATION' else ('keyed by a unique name' if not by_name else 'never read back'),
+                         node=n_, file=fn._mod.rel)
+            if verdict == 'VIOLATION':
+                bad12.append(n_)
+                ctx.violation(R12, fn._mod.rel, n_, Model.qual(fn),
+                              '`%s` records per-member data under the member name on the generator object, inside a method that is entered again for a nested type before the entry is read: '
+                              'a member of an inline nested SEQUENCE with the same name overwrites it, and the code generated for the outer member uses the inner member\'s variable '
+                              '(the generated decoder tests the wrong presence flag)' % norm_stmt(n_), stmt='per-member map on the generator')
+    if not reentrant:
+        raise AnalysisError('%s: no re-entrant generator method found (the call graph of the generator was not resolved)' % R12)
+    ctx.instance(R12, '%d re-entrant methods (%s ...), %d keyed stores on the generator object examined' % (len(reentrant), ', '.join(sorted(reentrant))[:80], n12), 'ok' if not bad12 else 'VIOLATION',
+                 nontrivial=True)
 
 
 def check(ctx):
